@@ -1916,6 +1916,87 @@ def c06_join_rule(env, ob):
     return trace_obligation(env, ob, ctx, res, bad, "JoinRule offers a hash / merge join for a condition with non-key conjuncts", cuts_ok=True)
 
 
+@obligation(id="C06.join_keys_are_oriented", also="C05", funcs="orient_equi_keys,JoinRule::implement",
+            bounds="orient_equi_keys: every path through <= 2 key pairs, ANY column indices and left width; "
+                   "JoinRule::implement: every path (loops unrolled once), callees uninterpreted",
+            native="c06_join_condition_written_either_way")
+def c06_join_keys_oriented(env, ob):
+    """`ON b.aid = a.id` yields the pair (column of the right input, column of the left input).  The hash / merge join
+    split a pair into a left key (index into the left schema) and a right key (index - left width into the right schema):
+    every pair that reaches the split must name the left input first, and a pair inside one input must not become a key.
+    (1) every pair orient_equi_keys outputs satisfies a < left width <= b and is the input pair or its mirror image;
+    (2) JoinRule::implement builds key joins only from orient_equi_keys' output."""
+    try:
+        ctx, f, args, res = explore(env, "", "orient_equi_keys", loop_bound=2)
+        lc = args[1].term
+    except Unsupported:
+        ctx, res, lc = mirsmt.Ctx(), [], None     # no such function on this tree: law (2) decides
+    qs, labels, pushes = [], [], 0
+    for path, rv in res:
+        if path.cut:
+            continue
+        last_in = None
+        for e in path.events:
+            if re.search(r"slice::Iter<'_, \(usize, usize\)> as Iterator>::next$", e["callee"]) and isinstance(e["ret"], Agg):
+                nm = e["ret"].name
+                last_in = (ctx.declare(nm + "@Some.0*.0", "usize").term, ctx.declare(nm + "@Some.0*.1", "usize").term)
+            if re.search(r"Vec::<\(usize, usize\)>::push$", e["callee"]):
+                pushes += 1
+                t = e["args"][1]
+                if not isinstance(t, Agg) or last_in is None:
+                    return result(ob, "inconclusive", reason="pushed pair not understood")
+                a, b = t.fields["0"].val.term, t.fields["1"].val.term
+                pre = e.get("pc_prefix", path.pc)
+                qs.append(conj(pre + [f"(not (and (bvult {a} {lc}) (bvuge {b} {lc})))"]))
+                labels.append("oriented_pair_does_not_name_the_left_input_first")
+                l, r = last_in
+                qs.append(conj(pre + [f"(not (or (and (= {a} {l}) (= {b} {r})) (and (= {a} {r}) (= {b} {l}))))"]))
+                labels.append("oriented_pair_is_not_the_extracted_pair")
+    if pushes < 2 and lc is not None:
+        return result(ob, "inconclusive", reason="vacuity: orient_equi_keys pushes no pair", paths=len(res))
+    chk = env.check(ctx, qs) if qs else []
+    failed = {lab for lab, c in zip(labels, chk) if c["verdict"] == "sat"}
+    unk = [c["verdict"] for c in chk if c["verdict"] not in ("sat", "unsat")]
+    # (2) the call site
+    ctx2, f2, args2, res2 = explore(env, "sql/planner/rules.rs", "implement", sig=r"&JoinRule", loop_bound=1)
+    seen = 0
+    for path, rv in res2:
+        if path.panics or rv is None:
+            continue
+        hj = idx(path, r"(HashJoinOp::new|PhysicalOperator::HashJoin|PhysicalOperator::MergeJoin)$")
+        if not hj:
+            continue
+        seen += 1
+        ex = [i for i in idx(path, r"extract_equi_keys$") if i < hj[0]]
+        orr = [i for i in idx(path, r"orient_equi_keys$") if i < hj[0]]
+        if not ex or not orr or orr[-1] < ex[-1]:
+            failed.add("key_join_built_from_pairs_that_were_not_oriented")
+            continue
+        # the oriented pairs must be what the extraction returned
+        src = mirsmt.describe(path.events[ex[-1]]["ret"]).lstrip("&")
+        oa = path.events[orr[-1]]["argdesc"]
+        via = [mirsmt.describe(e["ret"]).lstrip("&") for e in path.events[ex[-1]:orr[-1]]
+               if re.search(r" as Deref>::deref$|::as_slice$", e["callee"]) and src in " ".join(e["argdesc"])]
+        if src not in oa[0] and not any(v in oa[0] for v in via):
+            failed.add("orientation_applied_to_something_else_than_the_extracted_pairs")
+        # ... with the width of the LEFT input
+        lsi = env.struct_fields("sql/planner/logical.rs", "JoinOp").index("left_schema")
+        widths = [mirsmt.describe(e["ret"]) for e in path.events[:orr[-1]]
+                  if re.search(r"Schema::num_columns$", e["callee"]) and re.search(r"\." + str(lsi) + r"$", e["argdesc"][0])]
+        if not any(w == oa[1] for w in widths):
+            failed.add("orientation_does_not_use_the_width_of_the_left_input")
+    kw = dict(paths=len(res) + len(res2), queries=len(chk), events={"pairs_pushed": pushes, "paths_offering_a_key_join": seen})
+    if failed:
+        return result(ob, "violated", failed=sorted(failed), cex={"what": "a join key pair reaches the left/right split the wrong way round"}, **kw)
+    if unk:
+        return result(ob, "inconclusive", reason="solver: " + ",".join(unk[:3]), **kw)
+    if not seen:
+        return result(ob, "inconclusive", reason="vacuity: JoinRule::implement never offers a key join", **kw)
+    if lc is None:
+        return result(ob, "inconclusive", reason="orient_equi_keys not found in the dump", **kw)
+    return result(ob, "discharged", **kw)
+
+
 @obligation(id="C06.index_scan_is_exhaustive", funcs="IndexScan::next",
             bounds="every path of IndexScan::next through <= 2 index entries; tree / predicate calls uninterpreted",
             native="c06_composite_index_upper_bound")
